@@ -242,7 +242,8 @@ def read(obj, strict=False, counts=None):
 
 
 class Writer(object):
-    def __init__(self, rng=None, script=None):
+    def __init__(self, rng=None, script=None, policy=None):
+        self.policy = policy
         self.r = rng
         self.log = Counter()
         self.script = script
@@ -250,7 +251,10 @@ class Writer(object):
 
     def pick(self, dim, options):
         pos = len(self.trace)
-        if self.script is not None and pos < len(self.script):
+        if self.policy is not None:
+            want = self.policy.get(dim)
+            i = options.index(want) if want in options else 0
+        elif self.script is not None and pos < len(self.script):
             i = self.script[pos] % len(options)
         elif self.r is None:
             i = 0
@@ -367,7 +371,8 @@ class Writer(object):
         if k == 'dict':
             return dict((kk, self.val(x, v3)) for kk, x in n[1])
         if k == 'grid':
-            return self.grid(n)
+            # a nested grid is recognised by its three keys: rows is always written for it
+            return self.grid(n, nested=True)
         raise AssertionError(k)
 
     def _deg(self, v):
@@ -376,7 +381,7 @@ class Writer(object):
             base = '%.12f' % v
         return base
 
-    def grid(self, n):
+    def grid(self, n, nested=False):
         _, ver, meta, cols, rows = n
         v3 = not ver_lt3(ver)
         m = {}
@@ -400,7 +405,7 @@ class Writer(object):
             cs.append(o)
         out = {'meta': m, 'cols': cs}
         if not rows:
-            w = self.pick('empty-rows', ['[]', 'missing', 'null'])
+            w = self.pick('empty-rows', ['[]', 'missing', 'null']) if not nested else self.pick('empty-rows-nested', ['[]', 'null'])
             if w == '[]':
                 out['rows'] = []
             elif w == 'null':
